@@ -12,10 +12,15 @@ package server
 
 import (
 	"context"
+	"crypto/ecdsa"
+	"crypto/elliptic"
+	crand "crypto/rand"
 	"crypto/tls"
 	"crypto/x509"
+	"crypto/x509/pkix"
 	"fmt"
 	"io"
+	"math/big"
 	"os"
 	"path/filepath"
 	"reflect"
@@ -111,38 +116,71 @@ type vC15Sess struct {
 }
 
 type vC15Run struct {
-	sess     map[string]*vC15Sess
-	t        *testing.T
-	grpc     client.APIClient // TLS mode: calls go through a real gRPC/TLS connection
-	certCN   string           // TLS mode: the common name of the client certificate stands for client "alice"
-	srv      *Server
-	id       int
-	dir      string
-	version  int
-	lastFile [][]string // what was last written to the policy file
-	subs     []*vC15Sub
+	sess       map[string]*vC15Sess
+	t          *testing.T
+	grpc       client.APIClient            // TLS mode: calls go through a real gRPC/TLS connection (verified certificate)
+	grpcBy     map[string]client.APIClient // TLS mode: one connection per way of authenticating (Authz!Creds)
+	certCN     string                      // TLS mode: the common name of the client certificate stands for client "alice"
+	srv        *Server
+	id         int
+	dir        string
+	version    int
+	lastFile   [][]string // what was last written to the policy file
+	renameNext bool       // the next policy revision is renamed over the live file instead of written in place
+	subs       []*vC15Sub
 }
 
+// Real names.  Client ids and resource names may contain dots, and they are chosen so that DIFFERENT
+// (client, resource) pairs read the same when they are glued together:  alice = "svc" with s2 = "eu.b7s"
+// and bob = "svc.eu" with s1 = "b7s" (likewise the subjects j2 / j1).  An authorisation decision must
+// depend on the triple, not on some concatenation of it.
 func (r *vC15Run) real(model string) string {
-	if model == "*" || model == "__cursors" {
+	switch model {
+	case "*", "__cursors":
 		return model
+	case "s1":
+		return fmt.Sprintf("b%ds", r.id)
+	case "s2":
+		return fmt.Sprintf("eu.b%ds", r.id)
+	case "j1":
+		return fmt.Sprintf("b%dj", r.id)
+	case "j2":
+		return fmt.Sprintf("eu.b%dj", r.id)
 	}
 	return fmt.Sprintf("b%d%s", r.id, model)
 }
 
 func (r *vC15Run) model(real string) string {
-	if real == "*" || real == "__cursors" {
-		return real
+	for _, m := range []string{"s1", "s2", "j1", "j2", "*", "__cursors"} {
+		if r.real(m) == real {
+			return m
+		}
 	}
 	return strings.TrimPrefix(real, fmt.Sprintf("b%d", r.id))
 }
 
 // who maps a model client to the identity the server sees
 func (r *vC15Run) who(c string) string {
-	if r.certCN != "" && c == "alice" {
-		return r.certCN
+	base := "svc"
+	if r.certCN != "" {
+		base = r.certCN
+	}
+	switch c {
+	case "alice":
+		return base
+	case "bob":
+		return base + ".eu"
 	}
 	return c
+}
+
+func (r *vC15Run) unwho(id string) string {
+	for _, c := range []string{"alice", "bob"} {
+		if r.who(c) == id {
+			return c
+		}
+	}
+	return id
 }
 
 // vC15Subj: the NATS subject of a model stream is a name of its own (Authz!SubjOf)
@@ -197,7 +235,7 @@ func vC15Ctx(clientID string) context.Context {
 // subscribe runs the Subscribe handler with a fake stream; returns the held
 // subscription if the handler confirmed it, else the handler's error.
 func (r *vC15Run) subscribe(clientID, stream string, resume, grp bool, consumer string, epoch uint64, grace time.Duration) (*vC15Sub, error) {
-	ctx, cancel := context.WithCancel(vC15Ctx(clientID))
+	ctx, cancel := context.WithCancel(vC15Ctx(r.who(clientID)))
 	fs := &vC15SubServer{vC15Stream: vC15Stream{ctx: ctx}, first: make(chan struct{})}
 	req := &client.SubscribeRequest{Stream: r.real(stream), StartPosition: client.StartPosition_NEW_ONLY, Resume: resume}
 	if grp {
@@ -257,7 +295,22 @@ func (r *vC15Run) writePolicy(entries [][]string) {
 	for _, e := range entries {
 		fmt.Fprintf(&b, "p, %s, %s, %s\n", r.who(e[0]), r.real(e[1]), e[2])
 	}
-	if err := os.WriteFile(filepath.Join(r.dir, "policy.csv"), []byte(b.String()), 0o644); err != nil {
+	live := filepath.Join(r.dir, "policy.csv")
+	if r.renameNext {
+		next := live + ".next"
+		old := time.Now().Add(-2 * time.Hour)
+		if err := os.WriteFile(next, []byte(b.String()), 0o644); err != nil {
+			r.t.Fatalf("INCONCLUSIVE: %v", err)
+		}
+		if err := os.Chtimes(next, old, old); err != nil {
+			r.t.Fatalf("INCONCLUSIVE: %v", err)
+		}
+		if err := os.Rename(next, live); err != nil {
+			r.t.Fatalf("INCONCLUSIVE: %v", err)
+		}
+		return
+	}
+	if err := os.WriteFile(live, []byte(b.String()), 0o644); err != nil {
 		r.t.Fatalf("INCONCLUSIVE: %v", err)
 	}
 }
@@ -318,11 +371,7 @@ func (r *vC15Run) cleanPolicy(pol [][]string) [][]string {
 		if len(e) != 3 || e[0] == "probe" {
 			continue
 		}
-		who := e[0]
-		if r.certCN != "" && who == r.certCN {
-			who = "alice"
-		}
-		out = append(out, []string{who, r.model(e[1]), e[2]})
+		out = append(out, []string{r.unwho(e[0]), r.model(e[1]), e[2]})
 	}
 	sort.Slice(out, func(a, b int) bool { return strings.Join(out[a], "|") < strings.Join(out[b], "|") })
 	return out
@@ -438,7 +487,9 @@ func (r *vC15Run) world() map[string]interface{} {
 	}
 	sort.Strings(sessions)
 	return map[string]interface{}{"policy": r.loadedPolicy(), "policyFile": r.filePolicy(), "st": st, "cursors": cur,
-		"members": members, "sessions": sessions, "enforcer": r.srv.authzEnforcer != nil, "fileOK": r.fileThere()}
+		"members": members, "sessions": sessions, "enforcer": r.srv.authzEnforcer != nil, "fileOK": r.fileThere(),
+		// in-process calls carry the client id the interceptor would have extracted from a verified certificate
+		"clientAuth": r.grpc == nil || r.srv.config.TLSClientAuth}
 }
 
 // ---- calls -----------------------------------------------------------------------
@@ -469,7 +520,7 @@ func (r *vC15Run) call(c map[string]interface{}) (res string, detail string) {
 	if r.grpc != nil {
 		return r.callTLS(c)
 	}
-	ctx, cancel := context.WithTimeout(vC15Ctx(who), 3*time.Second)
+	ctx, cancel := context.WithTimeout(vC15Ctx(r.who(who)), 3*time.Second)
 	defer cancel()
 	switch m {
 	case "CreateStream":
@@ -489,7 +540,7 @@ func (r *vC15Run) call(c map[string]interface{}) (res string, detail string) {
 	case "Publish":
 		_, err = api.Publish(ctx, &client.PublishRequest{Stream: stream, Value: []byte("v"), AckPolicy: client.AckPolicy_LEADER})
 	case "PublishToSubject":
-		sctx, scancel := context.WithTimeout(vC15Ctx(who), 400*time.Millisecond)
+		sctx, scancel := context.WithTimeout(vC15Ctx(r.who(who)), 400*time.Millisecond)
 		_, err = api.PublishToSubject(sctx, &client.PublishToSubjectRequest{Subject: r.real(vC15Subj(vStr(c, "s"))), Value: []byte("v"),
 			AckPolicy: client.AckPolicy_LEADER})
 		scancel()
@@ -536,7 +587,7 @@ func (r *vC15Run) callTLS(c map[string]interface{}) (string, string) {
 	var (
 		m      = vStr(c, "m")
 		stream = r.real(vStr(c, "s"))
-		g      = r.grpc
+		g      = r.grpcBy[vStrDef(c, "cred", "verified")]
 		err    error
 	)
 	ctx, cancel := context.WithTimeout(context.Background(), 3*time.Second)
@@ -620,7 +671,7 @@ func (r *vC15Run) publishAsync(who, stream string) (string, string) {
 	}
 	se := r.sess[who]
 	if se == nil {
-		ctx, cancel := context.WithCancel(vC15Ctx(who))
+		ctx, cancel := context.WithCancel(vC15Ctx(r.who(who)))
 		se = &vC15Sess{fs: &vC15PubServer{vC15Stream: vC15Stream{ctx: ctx}, reqs: make(chan *client.PublishRequest, 1),
 			resps: make(chan *client.PublishResponse, 16)}, cancel: cancel, done: make(chan error, 1)}
 		go func(se *vC15Sess) { se.done <- r.srv.api.PublishAsync(se.fs) }(se)
@@ -686,7 +737,7 @@ func (r *vC15Run) generic(m, who string) (string, string) {
 		return "Unsupported", "cannot invoke " + m
 	}
 	req := reflect.New(fn.Type().In(1).Elem())
-	ctx, cancel := context.WithTimeout(vC15Ctx(who), 3*time.Second)
+	ctx, cancel := context.WithTimeout(vC15Ctx(r.who(who)), 3*time.Second)
 	defer cancel()
 	out := fn.Call([]reflect.Value{reflect.ValueOf(ctx), req})
 	if e, _ := out[1].Interface().(error); e != nil {
@@ -771,6 +822,22 @@ func (r *vC15Run) setup(cfg map[string]interface{}) {
 	}
 }
 
+// vC15SelfSigned: a certificate nobody vouches for, claiming the given common name
+func vC15SelfSigned(t *testing.T, cn string) tls.Certificate {
+	key, err := ecdsa.GenerateKey(elliptic.P256(), crand.Reader)
+	if err != nil {
+		t.Fatalf("INCONCLUSIVE: %v", err)
+	}
+	tmpl := &x509.Certificate{SerialNumber: big.NewInt(42), Subject: pkix.Name{CommonName: cn},
+		NotBefore: time.Now().Add(-time.Hour), NotAfter: time.Now().Add(24 * time.Hour),
+		KeyUsage: x509.KeyUsageDigitalSignature, ExtKeyUsage: []x509.ExtKeyUsage{x509.ExtKeyUsageClientAuth}}
+	der, err := x509.CreateCertificate(crand.Reader, tmpl, tmpl, &key.PublicKey, key)
+	if err != nil {
+		t.Fatalf("INCONCLUSIVE: %v", err)
+	}
+	return tls.Certificate{Certificate: [][]byte{der}, PrivateKey: key}
+}
+
 func vC15Entries(v interface{}) [][]string {
 	out := [][]string{}
 	for _, e := range v.([]interface{}) {
@@ -802,6 +869,7 @@ func vC15Main(t *testing.T, tlsMode bool) {
 	var (
 		srv    *Server
 		gc     client.APIClient
+		grpcBy map[string]client.APIClient
 		certCN string
 	)
 	if tlsMode {
@@ -817,6 +885,10 @@ func vC15Main(t *testing.T, tlsMode bool) {
 			cfg.TLSClientAuthzPolicy = ""
 		case "nomodel":
 			cfg.TLSClientAuthzModel = ""
+		}
+		// configuration route: authorisation on, but client certificates are not verified
+		if os.Getenv("VERIF_C15_CLIENTAUTH") == "off" {
+			cfg.TLSClientAuth, cfg.TLSClientAuthCA = false, ""
 		}
 		srv = vOneNodeServer(t, cfg)
 		defer srv.Stop()
@@ -838,13 +910,20 @@ func vC15Main(t *testing.T, tlsMode bool) {
 			t.Fatalf("INCONCLUSIVE: %v", err)
 		}
 		certCN = leaf.Subject.CommonName
-		conn, err := grpc.Dial(fmt.Sprintf("localhost:%d", srv.GetListenPort()), grpc.WithTransportCredentials(
-			credentials.NewTLS(&tls.Config{ServerName: "localhost", Certificates: []tls.Certificate{cert}, RootCAs: pool})))
-		if err != nil {
-			t.Fatalf("INCONCLUSIVE: dial: %v", err)
+		// three ways of authenticating: the certificate signed by the CA, a self-signed certificate that
+		// merely claims the same common name, no certificate at all
+		forged := vC15SelfSigned(t, certCN)
+		grpcBy = map[string]client.APIClient{}
+		for cred, certs := range map[string][]tls.Certificate{"verified": {cert}, "forged": {forged}, "none": nil} {
+			conn, err := grpc.Dial(fmt.Sprintf("localhost:%d", srv.GetListenPort()), grpc.WithTransportCredentials(
+				credentials.NewTLS(&tls.Config{ServerName: "localhost", Certificates: certs, RootCAs: pool})))
+			if err != nil {
+				t.Fatalf("INCONCLUSIVE: dial: %v", err)
+			}
+			defer conn.Close()
+			grpcBy[cred] = client.NewAPIClient(conn)
 		}
-		defer conn.Close()
-		gc = client.NewAPIClient(conn)
+		gc = grpcBy["verified"]
 	} else {
 		srv = vOneNodeServer(t, cfg)
 		defer srv.Stop()
@@ -882,7 +961,7 @@ func vC15Main(t *testing.T, tlsMode bool) {
 	tw.Emit(map[string]interface{}{"a": "Methods", "t": 0, "methods": apiMethods})
 
 	for _, b := range sf.Behaviours {
-		r := &vC15Run{t: t, srv: srv, id: b.ID, dir: dir, grpc: gc, certCN: certCN}
+		r := &vC15Run{t: t, srv: srv, id: b.ID, dir: dir, grpc: gc, grpcBy: grpcBy, certCN: certCN}
 		r.setup(b.Cfg)
 		r.writePolicy(vC15Entries(b.Cfg["policy"]))
 		if res := r.reload(); res != "Ok" && srv.authzEnforcer != nil {
@@ -903,7 +982,11 @@ func vC15Main(t *testing.T, tlsMode bool) {
 				obs["detail"] = detail
 				args["call"] = c
 			case "EditPolicy":
+				// how the operator puts the new revision in place: written in place, or prepared earlier
+				// and renamed over the live file (which keeps the OLD modification time of the prepared file)
+				r.renameNext = vStrDef(s, "how", "inplace") == "rename"
 				r.writePolicy(vC15Entries(s["policy"]))
+				r.renameNext = false
 			case "BreakFile":
 				os.Remove(filepath.Join(dir, "policy.csv"))
 			case "Reload":
